@@ -150,10 +150,11 @@ def altitude(msg: str) -> None | int:
     if tc < 19:
         altcode = altbin[0:6] + "0" + altbin[6:]
         alt = common.altitude(altcode)
-        if alt != -999999:
+        if alt != -999999 and alt != -1:
             return alt
         else:
-            # return None if altitude is invalid
+            # return None if altitude is invalid (c_common returns -999999
+            # for an all-zero code and -1 for an illegal Gillham code)
             return None
     else:
         return common.bin2int(altbin) * 3.28084  # type: ignore
